@@ -331,7 +331,7 @@ func conv[Int constraints.Integer | *big.Int | ~[]byte](i Int) *big.Int {
 	case reflect.Slice:
 		result.SetBytes(vi.Bytes())
 	case reflect.Ptr:
-		result = vi.Interface().(*big.Int)
+		result.Set(vi.Interface().(*big.Int))
 	}
 	return result
 }
